@@ -31,6 +31,10 @@ VShare == { [tag |-> 200, len |-> 33], [tag |-> 201, len |-> 40] }
 \* twin leaves (identical bytes under different parents) with few keys
 KTwin == { <<0,0,10,10>>, <<0,1,10,10>>, <<10,10>> }
 LTwin == KTwin \cup { <<0,0>>, <<>>, <<0,0,10,10,0,0>> }
+\* three keys whose trie is an extension over a branch, embedded in the root (all values short)
+KTiny == { <<0,0,0,0>>, <<0,0,0,1>>, <<1,0>> }
+LTiny == KTiny \cup { <<0,0>>, <<>>, <<0,0,0,0,0,0>> }
+VShort2 == { [tag |-> 97, len |-> 1], [tag |-> 98, len |-> 1] }
 \* one key, two long values: every behaviour up to a depth (history-unfolded runs)
 KOne == { <<0,0>> }
 LOne == { <<0,0>>, <<>>, <<0,0,0,0>> }
